@@ -32,6 +32,7 @@ RULE = ('Seeded random structures: nesting depth 0-4 of dict/list; leaves drawn 
         'contains at least one leaf that takes a msgpack ext-type path (array, NumPy scalar, complex) or is a reject/'
         'sqlite/state case with at least one array; distinct by the digest of (nesting, leaf classes, dtypes, shapes, '
         'layouts, byte orders, value bytes).')
+RULE += (' Wave-4 additions: SQLite read-back with overlapping reads on one dataset object; a save_checkpoint failing half-way through a multi-megabyte pickle must leave the previous checkpoint the latest loadable one.')
 ASSUMPTIONS = [
     'dtype equality is judged modulo byte order (a swapped array may come back native as long as the values are equal); '
     'values are compared bitwise except that NaN matches NaN regardless of payload',
